@@ -86,3 +86,47 @@ def finding_F6_incomparable(m):
     finally:
         if not w.loop.is_closed():
             w.shutdown()
+
+
+def finding_F17_rt_step0(m):
+    """real-time mode: rt_check compares the wall clock after the step for time t with rt_factor * t; for t = 0 the
+    deadline is 0 s after the start, so the step at time 0 is ALWAYS 'too slow' -- one warning per simulator that
+    steps at 0 even when it answers instantly, and with rt_strict=True every real-time run ends in RuntimeError."""
+    import types
+    import warnings
+    import mosaik
+    import mosaik_api_v3
+    from loguru import logger
+    logger.remove()
+    warnings.simplefilter("ignore")
+    meta = {"api_version": "3.0", "type": "time-based", "models": {"M": {"public": True, "params": [], "attrs": ["x"]}}}
+
+    class Sim(mosaik_api_v3.Simulator):
+        def __init__(self):
+            super().__init__(meta)
+
+        def init(self, sid, time_resolution=1.0, **kw):
+            return self.meta
+
+        def create(self, num, model, **kw):
+            return [{"eid": f"e{i}", "type": model} for i in range(num)]
+
+        def step(self, time, inputs, max_advance):
+            return time + 1
+
+        def get_data(self, outputs):
+            return {}
+    mod = types.ModuleType("_f17_sims")
+    mod.Sim = Sim
+    sys.modules["_f17_sims"] = mod
+    w = mosaik.World({"D": {"python": "_f17_sims:Sim"}}, skip_greetings=True)
+    try:
+        w.start("D").M()
+        try:
+            w.run(until=2, rt_factor=0.05, rt_strict=True, print_progress=False)
+            return False, "an instantly answering simulator completed a strict real-time run"
+        except RuntimeError as e:
+            return True, f"instantly answering simulator, rt_factor=0.05, rt_strict=True: RuntimeError({str(e)[:60]}) at the step for time 0"
+    finally:
+        if not w.loop.is_closed():
+            w.shutdown()
